@@ -127,8 +127,15 @@ def d3(ctx, F):
     """transport-level sharing between topics: all of a client's streams share one QUIC connection, so the connection-level flow-control
     window must not be capped at (or below) the per-stream window — otherwise the unread bytes of one stalled topic's stream use up the
     credit of the whole connection and the client's other topics stop too. quinn's default connection window is unlimited."""
-    sc = F.inlined(F.body("selium_server::quic::server_config"))
-    ctx.touch(F.body("selium_server::quic::server_config"))
+    # both ends advertise a window: the server's bounds what clients may send it, the client's bounds what the server may have in
+    # flight to that client over all of its subscriptions
+    for path, side in (("selium_server::quic::server_config", "quic"), ("selium::connection::configure_client", "client")):
+        _d3_one(ctx, F, path, side)
+
+
+def _d3_one(ctx, F, path, side):
+    sc = F.inlined(F.body(path))
+    ctx.touch(F.body(path))
     def val(c):
         r = flow.root(sc, c.args[1], through_calls=flow.ADAPTERS | {"quinn_proto::varint::VarInt::from_u32", "quinn_proto::varint::VarInt::from_u64"})
         v = flow.const_of(r[1]) if r[0] == "const" else None
@@ -142,8 +149,55 @@ def d3(ctx, F):
         sv = [val(c) for c in strm] or [1_250_000]        # quinn's default stream window is on the order of a megabyte
         ok = all(v is not None for v in cv) and all(v is not None for v in sv) and min(cv) >= 4 * max(sv)
         why = "connection window %s vs stream window %s (must leave room for several stalled streams)" % (cv, sv)
-    ctx.check(ok, "C17.D3.connection-window", "quic:connection-window-capped", "one stalled stream cannot exhaust a client's connection-level flow control: " + why,
+    ctx.check(ok, "C17.D3.connection-window", "%s:connection-window-capped" % side, "one stalled stream cannot exhaust a client's connection-level flow control: " + why,
               (conn or [sc])[0].span)
+
+
+HELD_RE = re.compile(r"\b(\w*Permit|\w*Guard)<")
+
+
+def _topic_wait(a):
+    return a.source_name().startswith("selium_server::topic::Sender::")
+
+
+def d4(ctx, F, label=""):
+    """the wait for room in one topic's registration queue is the only unbounded wait of a registration; it must stay private to that
+    registration: (a) it happens only in the stream's own handler (not in a task that serves several topics in turn), and (b) nothing
+    that other registrations need — a permit, a guard — is held while it lasts, in the handler or in the task wrapped around it"""
+    hs = F.one_body(r"^selium_server::server::handle_stream::\{closure#0\}$")
+    waiters = {}
+    for p_, b in F.bodies.items():
+        if b.crate != "selium_server" or p_.startswith("selium_server::topic::Sender::") or not any(bl["term"]["k"] == "yield" for bl in b.blocks):
+            continue
+        ws = [a for a in flow.awaits(b) if _topic_wait(a)]
+        if ws:
+            waiters[p_] = (b, ws)
+    ctx.floor("C17.D4.handover-waits" + label, sum(len(w) for _, w in waiters.values()), 1)
+    for p_, (b, ws) in sorted(waiters.items()):
+        ctx.touch(b)
+        if b is hs:
+            continue
+        parent = p_.rsplit("::{closure", 1)[0]
+        callers = F.callers_of(parent)
+        ok = bool(callers) and all(c.body.path in waiters or c.body is hs for c in callers)
+        ctx.check(ok, "C17.D4.handover-in-own-task", "topic-queue-wait-outside-handler:%s%s" % (parent.split("selium_server::")[-1], label),
+                  "%s waits for room in a topic's queue; only a stream's own handler (handle_stream, or an async helper it alone awaits) may do that, "
+                  "so that a full queue holds up nobody but that registration" % parent, ws[0].span)
+    wrappers = [c.body for c in F.callers_of("selium_server::server::handle_stream")]
+    for b in [hs] + [w for w in wrappers if w is not hs]:
+        if not any(bl["term"]["k"] == "yield" for bl in b.blocks):
+            continue
+        ctx.touch(b)
+        held_l = [l["id"] for l in b.locals if HELD_RE.search(l["ty"]) and not GUARD_RE.match(l["ty"]) and not HANDLES_GUARD_RE.match(l["ty"])]
+        for a in flow.awaits(b):
+            if not (_topic_wait(a) or a.source_name() == "selium_server::server::handle_stream") or a.yield_bb is None:
+                continue
+            for g in held_l:
+                init_in, at_term = flow.maybe_init_blocks(b, g)
+                if at_term[a.yield_bb] or init_in[a.yield_bb]:
+                    ctx.fail("C17.D4.nothing-held-across-handover", "held-across-topic-queue-wait:%s:%s%s" % (b.path.split("selium_server::")[-1], b.local_ty(g).split("<")[0].rsplit("::", 1)[-1], label),
+                             "%s keeps a `%s` while the registration waits for room in one topic's queue: once enough registrations wait there, every other topic's registrations starve" % (b.path, b.local_ty(g)[:90]), a.span)
+    ctx.ok("C17.D4.nothing-held-across-handover", "no permit or guard is live across the hand-over wait in handle_stream or the %d task wrapper(s) around it%s" % (len(wrappers), label), hs.span)
 
 
 def run(ctx):
@@ -151,9 +205,11 @@ def run(ctx):
     d1(ctx, F)
     d2(ctx, F)
     d3(ctx, F)
+    d4(ctx, F)
     if ctx.tier == "thorough":
         FF = ctx.facts("allfeatures")
         d1(ctx, FF, "[all-features]")
+        d4(ctx, FF, "[all-features]")
         ca = FF.find_bodies(r"^selium_server::cloud::do_cloud_auth::\{closure#0\}$")
         ctx.floor("C17.D1.cloud-auth-body", len(ca), 1)
         for b in ca:
